@@ -25,7 +25,7 @@ RULE = ('(a) dict-operation interleavings: 2-3 real threads each making 1-3 Path
         'Coq machine: every returned Path and the final key order. (b) call interleavings: 2-3 concurrent glom evaluations of '
         'type-directed specs with up to 4 yield points each planted as callables at random evaluation positions, driven through random '
         'and (for two calls with <= 3 yield points) all interleavings; every call\'s value / exception class / full error-trace text compared with '
-        'the same call run alone. (c) re-entrancy: glom called from a callable inside a running glom call, nested to depth 3, inner '
+        'the same call run alone; a third of these share ONE spec object between the calls, with a dict / list literal in argument position around the yield point. (c) re-entrancy (also a callable re-entering glom with the very spec object it belongs to, over trees): glom called from a callable inside a running glom call, nested to depth 3, inner '
         'failures caught by an outer Coalesce or propagating: the inner calls\' outcomes and trace texts equal their isolated runs and the '
         'outer call equals the outer call given the isolated inner outcome. (d) thorough tier: free-running threads under '
         'sys.setswitchinterval(1e-6) hammering a pool of calls, outcomes compared with the isolated ones (supporting evidence only). '
@@ -96,10 +96,17 @@ def outcome(fn):
 def build_calls(case, gates):
     """(thunk, encode) per call; gates are planted as ['Fn', ['gate', n]] nodes which pyspec cannot build: replace by marker"""
     calls = []
+    shared = None
     for c in case['calls']:
         r = pyval.Realiser()
         target = r.build(c['target'])
-        spec = build_with_gates(c['spec'], r, gates)
+        if case.get('shared_spec'):
+            # ONE spec object used by every call (specs are usually module-level constants)
+            if shared is None:
+                shared = build_with_gates(c['spec'], r, gates)
+            spec = shared
+        else:
+            spec = build_with_gates(c['spec'], r, gates)
         calls.append((r, target, spec))
     return calls
 
@@ -276,6 +283,8 @@ def run_impl(case):
         return run_calls(case)
     if k == 'reentrant':
         return run_reentrant(case)
+    if k == 'recursive':
+        return run_recursive(case)
     return run_stress(case)
 
 
@@ -309,6 +318,55 @@ def gen_calls(rng, k):
         spec = plant_gates(rng, spec, 10 * i)
         calls.append({'target': t, 'spec': spec})
     return calls
+
+
+def gen_shared(rng, k):
+    """k calls on different targets through the SAME spec object, whose scope binding evaluates a dict / list literal in
+    argument position with a yield point inside it"""
+    g = SpecGen(rng)
+    t = g.target(rng.choice([2, 3]))
+    inner = g.spec(t, rng.choice([1, 2]))
+    gate = ['Fn', ['gate', 1]]
+    first = ['Spec', ['Tuple', [gate, ['Str', 'who']]], []]
+    second = ['Spec', ['Tuple', [['Str', 't'], inner, ['Fn', ['gate', 2]]]], []]
+    lit = rng.choice([['Dict', False, [[['Str', 'a'], first], [['Str', 'b'], second]]],
+                      ['List', [first, second]],
+                      ['Dict', False, [[['Str', 'a'], ['List', [first]]], [['Str', 'b'], ['T', 'T', [['[', ['Str', 'who']]]]]]]])
+    spec = ['Tuple', [['Bind', [['info', lit]]], ['T', 'S', [['.', ['Str', 'info']]]]]]
+    calls = [{'target': {'k': 'dict', 'od': False, 'id': 900, 'items': [['who', 'caller-%d' % i], ['t', t]]}, 'spec': spec} for i in range(k)]
+    return {'kind': 'calls', 'shared_spec': True, 'calls': calls,
+            'schedule': [rng.randint(0, k - 1) for _ in range(rng.randint(0, 3 * k + 2))]}
+
+
+def run_recursive(case):
+    """a callable that re-enters glom with the very spec it belongs to, for every child of a tree"""
+    import glom
+    from glom import S, T, Spec
+    box = {}
+
+    def kids(t):
+        return [glom.glom(k, box['spec']) for k in t.get('kids', ())]
+    shape = case['shape']
+    if shape == 'dict':
+        box['spec'] = (S(info={'kids': Spec(kids), 'name': T['name']}), S.info)
+        ref = lambda t: {'kids': [ref(k) for k in t.get('kids', ())], 'name': t['name']}  # noqa: E731
+    elif shape == 'list':
+        box['spec'] = (S(info=[T['name'], Spec(kids)]), S.info)
+        ref = lambda t: [t['name'], [ref(k) for k in t.get('kids', ())]]  # noqa: E731
+    else:
+        box['spec'] = glom.Call(lambda a, b: [a, b], args=(T['name'], [Spec(kids)]))
+        ref = lambda t: [t['name'], [[ref(k) for k in t.get('kids', ())]]]  # noqa: E731
+    got = outcome(lambda: glom.glom(case['tree'], box['spec']))
+    want = ['ok', ref(case['tree'])]
+    problems = [] if got == want else ['re-entering glom with the same spec object: got %r, the plain recursion gives %r' % (_short(got), _short(want))]
+    return {'problems': problems}
+
+
+def gen_tree(rng, depth):
+    t = {'name': 'n%d' % rng.randint(0, 99)}
+    if depth > 0 and rng.random() < 0.8:
+        t['kids'] = [gen_tree(rng, depth - 1) for _ in range(rng.randint(1, 3))]
+    return t
 
 
 HOLE = ['Fn', ['hole']]
@@ -363,6 +421,10 @@ def generate(rng, tier):
         k = rng.choice([2, 2, 3])
         out.append({'kind': 'calls', 'calls': gen_calls(rng, k), 'schedule': [rng.randint(0, k - 1) for _ in range(rng.randint(0, 4 * k + 2))]})
     out += [gen_reentrant(rng) for _ in range(n_re)]
+    for _ in range(n_calls // 2):
+        out.append(gen_shared(rng, rng.choice([2, 2, 3])))
+    for _ in range(n_calls // 4):
+        out.append({'kind': 'recursive', 'shape': rng.choice(['dict', 'list', 'call']), 'tree': gen_tree(rng, rng.choice([1, 2, 3]))})
     if tier != 'quick':
         for _ in range(40):
             out.append({'kind': 'stress', 'calls': gen_calls(rng, 3), 'nthreads': 4, 'rounds': 150})
@@ -407,10 +469,14 @@ def classify(case, out):
     k = case['kind']
     if k == 'dictops':
         return 'dictops:%d-threads:max%d' % (len(case['threads']), case['max'])
+    if k == 'calls' and case.get('shared_spec'):
+        return 'shared-spec:%d:%s' % (len(case['calls']), '/'.join(out.get('kinds', [])))
     if k == 'calls':
         return 'calls:%d:%s' % (len(case['calls']), '/'.join(out.get('kinds', [])))
     if k == 'reentrant':
         return 'reentrant:depth%d:%s' % (len(case['levels']), out.get('final'))
+    if k == 'recursive':
+        return 'recursive:%s' % case['shape']
     return 'stress'
 
 
